@@ -46,6 +46,8 @@ def install(lib, np_):
       if item.s in h.get('__absent__', ()) or h.get('__closed__'):
         return z3.BoolVal(False)
       raise Unsupported('presence of attribute %s not declared by the contract' % item.s)
+    if isinstance(container, VArr) and isinstance(item, (VInt, VReal)):
+      return fresh('in_array', z3.BoolSort())
     return None
   np_.contains = contains
 
